@@ -163,12 +163,18 @@ async def scenario(loop, case, out, stats, fps, samples):
             if leaks:
                 steps = [{"do": "raise", "exc": "CancelledError", "d": ds[i]}]
                 stats["leaked_cancellations"] += 1
-            jobs.append({"id": f"j{i:03d}", "name": f"act{qi}", "queue": queues[qi], "script": {"by_attempt": steps}, "d": ds[i] * (2 if fails else 1), "retries": 1, "leaks": leaks})
+            hangs = case["fail"] and not fails and not leaks and rnd.random() < 0.15
+            if hangs:
+                # times out after 1 s and needs 0.6 s more to unwind: it is in progress (and keeps its slot) until then
+                steps = [{"do": "hang_cleanup", "cleanup": 0.6}, {"do": "ok", "d": ds[i]}]
+                stats["slow_unwinding_timeouts"] += 1
+            jobs.append({"id": f"j{i:03d}", "name": f"act{qi}", "queue": queues[qi], "script": {"by_attempt": steps}, "d": ds[i] * (2 if fails else 1) + (1.8 if hangs else 0), "retries": 1, "leaks": leaks,
+                         "timeout": 1.0 if hangs else 60.0})
         arr = case["arr"]
         enq_at = {}
 
         async def enq(j):
-            await w.job(j["name"], j["id"], j["script"], queue=j["queue"], retries=j["retries"], timeout=timedelta(seconds=60), store_result=False).enqueue()
+            await w.job(j["name"], j["id"], j["script"], queue=j["queue"], retries=j["retries"], timeout=timedelta(seconds=j["timeout"]), store_result=False).enqueue()
             enq_at[j["id"]] = loop.time()
 
         pre = jobs if arr == "before" else jobs[: max(1, min(len(jobs) // 3, limit + 1))]
